@@ -80,6 +80,44 @@ def _reorder_fns(scratch, facts):
     return changed
 
 
+def _neutral_stmt(scratch, facts):
+    """insert `let _selftest_neutral = ();` as the first statement of every function body in the non-test sources"""
+    from . import syn as S
+    changed = []
+    for rel in facts.syn_files():
+        if not rel.startswith("crates/") or "/tests/" in rel or "/target/" in rel or "/benches/" in rel:
+            continue
+        if not any(rel.startswith(f"crates/{c}/src/") for c in ("compiler", "parser", "ast", "lexer", "cst", "diagnostics", "text_size", "wasm-app")):
+            continue
+        tree = facts.syn(rel)
+        spots = []
+        for n in S.walk(tree):
+            if n.get("k") in ("Fn", "ImplFn", "Method") or (n.get("k") == "Fn"):
+                b = n.get("body")
+                if isinstance(b, dict) and b.get("k") == "Block" and b.get("sp"):
+                    if any(a["name"] in ("test",) for a in n.get("attrs", [])) or n.get("const"):
+                        continue
+                    spots.append((b["sp"][0], b["sp"][1]))
+        if not spots:
+            continue
+        pth = os.path.join(scratch, rel)
+        s0 = open(pth, encoding="utf-8").read()
+        lines = s0.split("\n")
+        for (ln, col) in sorted(set(spots), reverse=True):
+            line = lines[ln - 1]
+            # syn columns are 0-based character offsets; the block starts at `{`
+            idx = col
+            if idx >= len(line) or line[idx] != "{":
+                j = line.find("{", max(0, idx - 1))
+                if j < 0:
+                    continue
+                idx = j
+            lines[ln - 1] = line[:idx + 1] + " let _selftest_neutral = (); " + line[idx + 1:]
+        open(pth, "w", encoding="utf-8").write("\n".join(lines))
+        changed.append((pth, s0))
+    return changed
+
+
 def _restore(changed):
     for p, s in changed:
         open(p, "w", encoding="utf-8").write(s)
@@ -119,7 +157,8 @@ def selftest(prop, facts):
             if not ok:
                 res["ok"] = False
         for name, fn in (("line shift (3 comment lines on top of every .rs file)", lambda: _line_shift(scratch)),
-                         ("top-level functions reordered in every compiler source file", lambda: _reorder_fns(scratch, facts))):
+                         ("top-level functions reordered in every compiler source file", lambda: _reorder_fns(scratch, facts)),
+                         ("a no-op statement inserted at the top of every function body", lambda: _neutral_stmt(scratch, facts))):
             changed = fn()
             try:
                 rc, keys, known, out = _run_check(prop, scratch)
